@@ -111,7 +111,7 @@ static void run_shape (const shape_t *sh, int variant, int leaf, long k, int mod
       push_number (i);
       char want[300], *t = vm_master_text ("query_error_text", 1);
       /* limit errors are refused by catch by design (C04): do_catch re-raises "*Can't catch ..." instead */
-      if (!strncmp (t, "*Too long evaluation", 20) || !strncmp (t, "***Too deep recursion", 21) || !strncmp (t, "***Stack overflow", 17)) continue;
+      if (!strncmp (t, "*Too long evaluation", 20) || !strncmp (t, "***Too deep recursion", 21) || !strncmp (t, "***Stack overflow", 17) || !strncmp (t, "*Can't catch", 12)) continue;
       svalue_t sv; sv.type = T_STRING; sv.subtype = STRING_CONSTANT; sv.u.string = t;
       snprintf (want, sizeof want, "%s", hx_canon_s (&sv));
       while (ci < vm_ncval && vm_cval[ci][0] != '"') ci++;          /* thrown non-string values are not logged */
